@@ -218,7 +218,17 @@ func (s *Solver) flush() ([]string, error) {
 // answer is sat, their values are returned.
 func (s *Solver) Check(pc []*Term, extra *Term, wantModel []*Term) (string, Model) {
 	t0 := time.Now()
-	defer func() { s.Stats.Dur += time.Since(t0) }()
+	defer func() {
+		d := time.Since(t0)
+		s.Stats.Dur += d
+		if slowLog && d > 2*time.Second {
+			ex := ""
+			if extra != nil {
+				ex = extra.String()
+			}
+			fmt.Fprintf(os.Stderr, "SLOW %.1fs pc=%d extra=%s\n", d.Seconds(), len(pc), ex)
+		}
+	}()
 	s.Stats.Queries++
 	if s.dead {
 		s.restart()
@@ -289,6 +299,7 @@ func (s *Solver) Check(pc []*Term, extra *Term, wantModel []*Term) (string, Mode
 }
 
 var debugSolver = false
+var slowLog = os.Getenv("SYMEX_SLOW") != ""
 
 // parseModel parses ((a #x05) (|b c| true) ...) into a model.
 func parseModel(txt string, syms []*Term) Model {
